@@ -534,7 +534,47 @@ func firstQuoted(line string) string {
 		j++
 	}
 	if j >= len(line) {
-		return line[i+1:]
+		return unescapeStrace(line[i+1:])
 	}
-	return line[i+1 : j]
+	return unescapeStrace(line[i+1 : j])
+}
+
+// unescapeStrace undoes the C-style escaping strace applies to strings (octal bytes for everything that is not
+// printable ASCII).
+func unescapeStrace(s string) string {
+	if !strings.Contains(s, `\`) {
+		return s
+	}
+	var sb strings.Builder
+	for i := 0; i < len(s); i++ {
+		if s[i] != '\\' || i+1 >= len(s) {
+			sb.WriteByte(s[i])
+			continue
+		}
+		i++
+		switch c := s[i]; {
+		case c >= '0' && c <= '7':
+			v, n := 0, 0
+			for n < 3 && i < len(s) && s[i] >= '0' && s[i] <= '7' {
+				v = v*8 + int(s[i]-'0')
+				i++
+				n++
+			}
+			i--
+			sb.WriteByte(byte(v))
+		case c == 'n':
+			sb.WriteByte('\n')
+		case c == 't':
+			sb.WriteByte('\t')
+		case c == 'r':
+			sb.WriteByte('\r')
+		case c == 'v':
+			sb.WriteByte('\v')
+		case c == 'f':
+			sb.WriteByte('\f')
+		default:
+			sb.WriteByte(c)
+		}
+	}
+	return sb.String()
 }
